@@ -70,6 +70,10 @@ def violations_of(u):
             out.append(("c11:crash:%s:%s" % (c.fn.dir, C10.sig_shape(c.fn)),
                         "native run aborted (rc=%s) during call %d %s; stderr: %s" % (u.rc, c.k, c.fn.label(), (u.stderr or "")[-600:]), c, None))
             break
+        for ph, line in c.obs.get("sanitizer", []):
+            if "AddressSanitizer" in line:
+                out.append(("c11:asan:%s:%s" % (c.fn.dir, C10.sig_shape(c.fn)), "AddressSanitizer report during phase %s of %s [%s]: %s"
+                            % (ph, c.fn.label(), u.cfg_words or "default", line), c, None))
         args_t, ret_t = G.free_targets(u, c)
         for cls, what in G.judge_memory(u, c):
             key = "c11:%s:%s:%s" % (cls, c.fn.dir, C10.sig_shape(c.fn))
@@ -110,7 +114,7 @@ def run(ctx):
         "excluded as in C10: %s; flags > 32 members; async; lists of borrows of exported resources" % sorted(excl),
     ]
     ctx.proof_leg(TARGETS, ["Props.C11"], THEOREMS)
-    nworlds = 5 if quick else 120
+    nworlds = 8 if quick else 160
     rng = ctx.rng
 
     def mk(r, i):
